@@ -1,2 +1,6 @@
 -- Property files of work group C (import UF.Props.Cxx lines go here).
 import UF.Driver.Ops.GroupC
+import UF.Props.C07
+import UF.Props.C08
+import UF.Props.C09
+import UF.Props.C06
